@@ -26,7 +26,7 @@ EVENTS = [
     ("SIGINT", "sigint"), ("SIGTERM", "sigterm"), ("", "empty"), ("frobnicate now", "unknown"), ("prob something", "failure-notice"), ("failed x", "failure-notice"),
 ]
 TERMINALS = [("phases succeeded", "succeeded"), ("phases failed the reason", "failed"), ("dying\nline one\nline two\ndead", "dying"), ("wibble", "unknown")]
-EXPECT_REPLIES = [("start_receiving_env succeeded", True), ("something else", False), ("SIGINT", "sigint")]
+EXPECT_REPLIES = [("start_receiving_env succeeded", True), ("something else", False), ("SIGINT", "sigint"), ("dying\nthe message\ndead", "dying")]
 
 
 class BothWaiting(BaseException):
@@ -64,14 +64,19 @@ def make_ebp(lines):
 class ProtocolHarness(Harness):
     def setup(self, eng):
         n = self.ob["n"]
-        return {"expects": [eng.int(f"expect_reply{i}", 0, len(EXPECT_REPLIES) - 1) for i in range(self.ob["nexp"])], "events": ([self.ob["first"]] if "first" in self.ob else []) + [eng.int(f"event{i}", 0, len(EVENTS) - 1) for i in range(n - (1 if "first" in self.ob else 0))], "terminal": eng.int("terminal", 0, len(TERMINALS) - 1)}
+        return {"expects": [eng.int(f"expect_reply{i}", 0, len(EXPECT_REPLIES) - 1) for i in range(self.ob["nexp"])], "events": ([self.ob["first"]] if "first" in self.ob else []) + [eng.int(f"event{i}", 0, len(EVENTS) - 1) for i in range(n - (1 if "first" in self.ob else 0))], "terminal": eng.int("terminal", 0, len(TERMINALS) - 1), "timed": eng.bool("timed_request_while_replies_are_pending")}
 
     def body(self, inp):
         c = core.fix(inp) if core.ENG is not None else inp
         exp = [EXPECT_REPLIES[i] for i in c["expects"]]
         evs = [EVENTS[i] for i in c["events"]]
         term = TERMINALS[c["terminal"]]
-        lines = [r for r, _ in exp]
+        lines = []
+        for r, _ in exp:
+            lines += r.split("\n")
+        timed = bool(c.get("timed")) and bool(exp)
+        if timed:
+            lines.append("yep!")
         for l, _ in evs:
             lines += l.split("\n")
         lines += term[0].split("\n")
@@ -88,11 +93,16 @@ class ProtocolHarness(Harness):
 
         extra = {"request_inherit": answer("request_inherit"), "request_bashrc": answer("request_bashrc"), "key": lambda e, *a: None}
         outcome = None
+        timed_result = None
         with patched((processor, "drop_ebuild_processor", lambda e: shutdowns.append("drop")), (processor.EbuildProcessor, "shutdown_processor", lambda self, force=False: shutdowns.append("shutdown")),
                      (processor.EbuildProcessor, "sandbox_summary", lambda self, *a: self.write("end_sandbox_summary"))):
             try:
                 for _, want in [(None, "start_receiving_env succeeded")] * len(exp):
                     ebp.expect(want, async_req=True)
+                if timed:
+                    # a liveness probe with a timeout while batched replies are still unread (is_responsive does this)
+                    ebp.write("alive")
+                    timed_result = ebp.expect("yep!", flush=True, timeout=5)
                 outcome = ("returned", ebp.generic_handler(extra))
             except BothWaiting as e:
                 outcome = ("both-waiting", str(e))
@@ -108,50 +118,50 @@ class ProtocolHarness(Harness):
                 outcome = ("ProcessorError", str(e.error)[:40])
         # ---- what the protocol demands for this event sequence
         want = None
-        seq = [("expect", ok) for _, ok in exp] + [(k, l) for l, k in evs] + [(term[1], term[0])]
-        consumed = 0
         expected_answers = []
-        for kind, val in seq:
-            consumed += 1
-            if kind == "expect":
-                if val == "sigint":
+        problems = []
+        special = next((ok for _, ok in exp if ok in ("sigint", "dying")), None)
+        all_good = all(ok is True for _, ok in exp)
+        if special == "sigint":
+            want = ("KeyboardInterrupt", None)
+        elif special == "dying":
+            want = ("ProcessorError", None)
+        elif exp and not timed and not all_good:
+            want = ("UnhandledCommand", None)  # expects out of alignment
+        else:
+            if timed and all_good and timed_result is not True:
+                problems.append("the timed request was matched with another request's reply (reported as failed although every reply was right)")
+            if timed and not all_good and timed_result is not False:
+                problems.append("the timed request was reported as answered although a batched reply was wrong")
+            for l, kind in evs + [(term[0], term[1])]:
+                if kind == "request":
+                    expected_answers.append(l.split()[0])
+                elif kind == "summary":
+                    expected_answers.append("end_sandbox_summary")
+                elif kind in ("oneway", "sigterm"):
+                    continue
+                elif kind == "sigint":
                     want = ("KeyboardInterrupt", None)
                     break
-                # replies are compared after all of them were read
-                continue
-            if any(k == "expect" and v is False for k, v in seq[:consumed]) and kind != "expect":
-                want = ("UnhandledCommand", None)
-                consumed -= 1
-                break
-            if kind == "request":
-                expected_answers.append(val.split()[0])
-            elif kind == "summary":
-                expected_answers.append("end_sandbox_summary")
-            elif kind == "oneway":
-                pass
-            elif kind == "sigint":
-                want = ("KeyboardInterrupt", None)
-                break
-            elif kind == "sigterm":
-                continue  # the processor is shut down, the loop reads on (the daemon's next line is its exit notice in practice)
-            elif kind == "empty":
-                want = ("InternalError", None)
-                break
-            elif kind in ("unknown", "failure-notice"):
-                want = ("UnhandledCommand", None)
-                break
-            elif kind == "succeeded":
-                want = ("returned", True)
-            elif kind == "failed":
-                want = ("ProcessorError", "the reason")
-            elif kind == "dying":
-                want = ("ProcessorError", None)
-        problems = []
+                elif kind == "empty":
+                    want = ("InternalError", None)
+                    break
+                elif kind in ("unknown", "failure-notice"):
+                    want = ("UnhandledCommand", None)
+                    break
+                elif kind == "succeeded":
+                    want = ("returned", True)
+                elif kind == "failed":
+                    want = ("ProcessorError", "the reason")
+                elif kind == "dying":
+                    want = ("ProcessorError", None)
+        if special == "dying" and outcome[0] == "ProcessorError" and "the message" not in (outcome[1] or ""):
+            problems.append(f"the die message was lost: {outcome[1]!r}")
         if outcome[0] == "both-waiting":
             problems.append(outcome[1])
         elif want is not None and (outcome[0] != want[0] or (want[1] is not None and want[0] != "ProcessorError" and outcome[1] != want[1])):
             problems.append(f"ended with {outcome} instead of {want}")
-        writes = [s.strip() for k, s in ch.log if k == "write"]
+        writes = [s.strip() for k, s in ch.log if k == "write" and s.strip() != "alive"]
         got_answers = [w.replace("-answer", "") if w.endswith("-answer") else w for w in writes]
         if outcome[0] != "both-waiting" and got_answers != expected_answers[: len(got_answers)] or len(got_answers) < len(expected_answers) and outcome[0] in ("returned",):
             problems.append(f"answers {got_answers} instead of {expected_answers}")
